@@ -844,8 +844,8 @@ fn build_deref_for_struct(
 /// `&ty`; `&dyn A + B` is not a type, `&(dyn A + B)` is.
 fn with_ref_type(ty: &Type, is_ref: bool) -> TokenStream {
     match ty {
-        Type::TraitObject(t) if is_ref && t.bounds.len() > 1 => quote!(&(#ty)),
-        Type::ImplTrait(t) if is_ref && t.bounds.len() > 1 => quote!(&(#ty)),
+        Type::TraitObject(t) if is_ref && (t.bounds.len() > 1 || t.bounds.trailing_punct()) => quote!(&(#ty)),
+        Type::ImplTrait(t) if is_ref && (t.bounds.len() > 1 || t.bounds.trailing_punct()) => quote!(&(#ty)),
         _ => with_ref(ty, is_ref),
     }
 }
